@@ -263,7 +263,10 @@ fn check_const(idx: u64, kind: Kind, regs: &Regs, csrc: &str, acc: &mut Acc) {
     let mut toks = match lex(csrc, regs) {
         Ok(t) => t,
         Err(e) => {
-            acc.fail(idx, case(), "a constant over the harness alphabet", e, "harness: enumerator produced a source outside its alphabet");
+            // a defect of the enumerator, not of the subject: surfaces through the vacuity of this counter's complement
+            acc.class(&format!("HARNESS: source outside the lexer alphabet ({e})"));
+            acc.count("harness_source_outside_alphabet");
+            acc.skipped += 1;
             return;
         }
     };
@@ -341,9 +344,15 @@ fn check_const(idx: u64, kind: Kind, regs: &Regs, csrc: &str, acc: &mut Acc) {
                 return;
             }
             let kinds: Vec<Option<ScanError>> = obs.errors.iter().map(|t| error_kind(t)).collect();
-            let agrees = |m: &ModelOut| obs.fatal.is_none() && obs.out == outs(m) && kinds.len() == m.errors.len() && kinds.iter().zip(m.errors.iter()).all(|(a, b)| *a == Some(*b));
+            // Judged: the typeset left-over text and the stored value (clause "scan ... exactly as TeX": the
+            // extent of the constant and its value), and WHETHER an error is raised (clauses "values beyond TeX's
+            // limits produce the documented error and clamped value" / a well-formed constant in range raises
+            // none). Which error type or title the crate uses and how many errors it raises for one constant
+            // are the crate's choice: recorded as outcome classes only.
+            let agrees = |m: &ModelOut| obs.fatal.is_none() && obs.out == outs(m) && kinds.is_empty() == m.errors.is_empty();
             if agrees(&m) {
-                acc.class(&format!("agree errors={}", err_names(&m.errors)));
+                let same_kinds = kinds.len() == m.errors.len() && kinds.iter().zip(m.errors.iter()).all(|(a, b)| *a == Some(*b));
+                acc.class(&format!("agree errors={}{}", err_names(&m.errors), if same_kinds { "" } else { " (crate's error kinds/count differ: recorded, not judged)" }));
                 return;
             }
             // known deviations: the predicate is on the case (the switched model differs from TeX on it),
@@ -606,9 +615,21 @@ fn check_arith(idx: u64, kind: Kind, op: Op, a: i64, b: i64, variant: &str, acc:
                 acc.count("undefined_by_texweb_no_panic");
                 return;
             };
+            // Judged: the value printed right after the operation, and WHETHER an error is raised ("error and
+            // no change on \\multiply overflow or division by zero", "silent wrap-around on \\advance"). The
+            // value after the group ends (variants global / group) is C01's subject, error titles and the
+            // number of errors are the crate's choice: recorded as classes only.
+            let first = |s: &str| s.split('|').nth(1).unwrap_or("").to_string();
             let titles_ok = obs.errors.iter().all(|t| t.starts_with("overflow in checked") || t == "division by zero" || t.starts_with("expected a dimension in the range"));
-            if obs.fatal.is_none() && obs.out == want_out && obs.errors.len() == want_errs && titles_ok {
-                acc.class(&format!("agree {} {} errors={want_errs}", op.name(), kind.name()));
+            if obs.fatal.is_none() && first(&obs.out) == first(&want_out) && (obs.errors.is_empty() == (want_errs == 0)) {
+                let mut note = String::new();
+                if obs.out != want_out {
+                    note.push_str(" (value after the group differs: C01, not judged here)");
+                }
+                if obs.errors.len() != want_errs || !titles_ok {
+                    note.push_str(" (error titles/count differ: not judged)");
+                }
+                acc.class(&format!("agree {} {} errors={want_errs}{note}", op.name(), kind.name()));
             } else {
                 let class = if obs.out != want_out && obs.errors.len() == want_errs {
                     "value differs"
@@ -731,7 +752,7 @@ fn check_glue_arith(idx: u64, op: Op, gi: usize, ri: usize, n: i64, acc: &mut Ac
                 acc.count("undefined_by_texweb_no_panic");
                 return;
             };
-            if obs.fatal.is_none() && obs.out == want_out && obs.errors.len() == want_errs {
+            if obs.fatal.is_none() && obs.out == want_out && (obs.errors.is_empty() == (want_errs == 0)) {
                 acc.class(&format!("agree {} skip errors={want_errs}", op.name()));
             } else {
                 let first = |s: &str| s.split('|').nth(1).unwrap_or("").to_string();
@@ -774,7 +795,8 @@ fn check_vm_roundtrip(idx: u64, vals: &[i64], acc: &mut Acc) {
     match run_program(&prog) {
         Err(p) => acc.fail(idx, case(), want, p.describe(), "panic"),
         Ok(obs) => {
-            if obs.out != want || obs.fatal.is_some() || obs.errors.len() != nerr {
+            // an error must be raised iff some value is beyond the limit; how many is not judged
+            if obs.out != want || obs.fatal.is_some() || (obs.errors.is_empty() != (nerr == 0)) {
                 acc.class("DISAGREE \\the\\dimen does not scan back");
                 dbgc("DISAGREE \\the\\dimen does not scan back", &case());
                 acc.fail(idx, case(), format!("{want} errors={nerr}"), format!("{} errors={:?} fatal={:?}", obs.out, obs.errors, obs.fatal), "\\dimen2=\\the\\dimen0 does not reproduce the value");
